@@ -1,9 +1,13 @@
 import BadgerModel.Driver.Loop
-/-! `bmd_misc <engine>`: line-protocol driver (see CONVENTIONS.md). -/
+import BadgerModel.Driver.Batch
+/-! `bmd_misc <engine>`: line-protocol driver (see CONVENTIONS.md). Engines: `batch`, `seq`, `mergeop`. -/
 open Badger.Driver
 
 def main (args : List String) : IO UInt32 := do
   let stdin ← IO.getStdin
   let stdout ← IO.getStdout
   match args with
-  | _ => IO.eprintln "usage: bmd_misc <engine>"; return 2
+  | ["batch"] => statefulLoop stdin stdout batchStep ({} : BatchSt); return 0
+  | ["seq"] => statefulLoop stdin stdout seqStep ({} : SeqSt); return 0
+  | ["mergeop"] => statefulLoop stdin stdout mergeopStep ({} : MergeSt); return 0
+  | _ => IO.eprintln "usage: bmd_misc <batch|seq|mergeop>"; return 2
